@@ -53,12 +53,12 @@ class Abort(BaseException):
     """A body failure that is not an Exception (like cancellation)."""
 
 
-BODY_EXC = {"ctx_raise": Boom, "ctx_raise_os": OSError, "ctx_raise_base": Abort}
-CTX = ("ctx_ok", "ctx_raise", "ctx_raise_os", "ctx_raise_base")
+BODY_EXC = {"ctx_raise": Boom, "ctx_raise_os": OSError, "ctx_raise_conn": ConnectionResetError, "ctx_raise_base": Abort}
+CTX = ("ctx_ok", "ctx_raise", "ctx_raise_os", "ctx_raise_conn", "ctx_raise_base")
 
 
 def actions_for(nports):
-    acts = ["start", "stop", "ctx_ok", "ctx_raise", "ctx_raise_os", "ctx_raise_base"]
+    acts = ["start", "stop", "ctx_ok", "ctx_raise", "ctx_raise_os", "ctx_raise_conn", "ctx_raise_base"]
     for i in range(nports):
         acts += [f"send{i}", f"occupy{i}", f"release{i}"]
     return acts
